@@ -22,7 +22,7 @@ def check(pid, tier):
            nontrivial=lambda t: any(t["case"]["mask"]) and not all(t["case"]["mask"]))
     # acceptance table: consumer FLEX / NONE / fixed x producer mask x grid layout
     tlc.emit("MetaEmit", {})      # theorems of Meta.tla
-    masks, grids = ["flex", "nomask", "M", "N"], ["g", "g2"]
+    masks, grids = ["flex", "nomask", "M", "N", "E", "E0"], ["g", "g2"]
     cases = []
     for pm, cm, pg, cg in itertools.product(masks, masks, grids, grids):
         base = {"time": "t", "units": "m", "foo": "absent"}
@@ -36,7 +36,7 @@ def check(pid, tier):
         violations.append((pid, f"mask acceptance: {verdict} case={jdump(traces[k]['case'])[:300]}", path))
     ev.cov["rule"] = ("every case of MaskOps.tla (shapes up to 3 dimensions / 8 elements, both orders, all masks for "
                       "<= 6 elements, masked arrays / mask argument / nomask, plain and quantified) on the public "
-                      "helpers, plus all 64 producer x consumer mask x layout combinations of the acceptance table; "
+                      "helpers, plus all 144 producer x consumer mask x layout combinations of the acceptance table; "
                       "non-trivial = partial mask")
     return finish(pid, ev, out_lines, violations, machinery)
 
